@@ -1944,6 +1944,11 @@ func (s *BgpServer) handleFSMMessage(peer *peer, e *fsmMsg) {
 		if notEstablished || beforeUptime {
 			return
 		}
+		// The peer may have been deleted while this message was waiting for the
+		// lock; its routes are gone already and nothing would remove new ones.
+		if key, err := netip.ParseAddr(peer.ID()); err != nil || s.neighborMap[key] != peer {
+			return
+		}
 		switch m.Header.Type {
 		case bgp.BGP_MSG_ROUTE_REFRESH:
 			s.handleRouteRefresh(peer, e)
